@@ -304,7 +304,11 @@ func (x *Exec) run() {
 			}
 			// each postcondition is proved from the exit state alone (not from
 			// the other postconditions): smaller, more stable queries
-			x.obligeNamed(final.clone(), name, "post", g, x.fd.Pos(), e.Text)
+			if x.ct.Chain {
+				x.obligeNamed(final, name, "post", g, x.fd.Pos(), e.Text)
+			} else {
+				x.obligeNamed(final.clone(), name, "post", g, x.fd.Pos(), e.Text)
+			}
 		}
 	}
 	x.frameObligations(final)
